@@ -100,9 +100,13 @@ impl World {
     #[verifier::external_body]
     pub fn info_insert_before(&mut self, e: &ElemH, item: ItemRef, ref_id: usize) -> (r: core::result::Result<ItemRef, xml_info::error::Error>)
         ensures r is Err ==> final(self).unchanged(*old(self)),
-                (!old(self).list(e.ident).contains(ref_id) || ref_id == item.ident) <==> (r is Err && r->Err_0 is OufOfIndex),
-                r is Ok ==> r->Ok_0.ident == item.ident && final(self).inserted(*old(self), e.ident, item.ident, Some(ref_id)),
-                r is Ok ==> !refused_below(*old(self), e.ident, item.ident),
+                // (an item inserted before ITSELF: refused with OufOfIndex today; a call that succeeds and changes nothing would be as good:
+                // the corner is left open here exactly as in units/c13_tree.py)
+                !old(self).list(e.ident).contains(ref_id) ==> r is Err && r->Err_0 is OufOfIndex,
+                r is Err && r->Err_0 is OufOfIndex ==> !old(self).list(e.ident).contains(ref_id) || ref_id == item.ident,
+                r is Ok ==> r->Ok_0.ident == item.ident && old(self).list(e.ident).contains(ref_id),
+                r is Ok && ref_id != item.ident ==> final(self).inserted(*old(self), e.ident, item.ident, Some(ref_id)) && !refused_below(*old(self), e.ident, item.ident),
+                r is Ok && ref_id == item.ident ==> final(self).unchanged(*old(self)),
                 (old(self).list(e.ident).contains(ref_id) && ref_id != item.ident && !refused_below(*old(self), e.ident, item.ident)) ==> r is Ok,
     { unimplemented!() }
     #[verifier::external_body]
@@ -183,17 +187,19 @@ def build():
                      ('C13:a_reference_of_another_document_is_refused', f'doc_of({ME}) == doc_of(new_child.ident) && ref_child is Some && doc_of({ME}) != doc_of(ref_child->Some_0.ident) ==> r is Err && r->Err_0 == {DOM("WrongDocumentErr")}'),
                      ('C13:a_reference_that_is_not_a_child_is_not_found',
                       f'doc_of({ME}) == doc_of(new_child.ident) && ref_child is Some && doc_of({ME}) == doc_of(ref_child->Some_0.ident) && convertible(new_child.ident)'
-                      f' && (!old(world).list({ME}).contains(ref_child->Some_0.ident) || ref_child->Some_0.ident == new_child.ident) ==> r is Err && r->Err_0 == {DOM("NotFoundErr")}'),
+                      f' && !old(world).list({ME}).contains(ref_child->Some_0.ident) ==> r is Err && r->Err_0 == {DOM("NotFoundErr")}'),
                      ('C13:every_error_is_one_of_the_specified_classes_and_changes_nothing',
                       f'r is Err ==> final(world).unchanged(*old(world)) && (r->Err_0 == {DOM("WrongDocumentErr")} || r->Err_0 == {DOM("NotFoundErr")} || r->Err_0 == {DOM("HierarchyRequestErr")} || r->Err_0 == {DOM("NotSupportErr")})'),
                      ('C13:a_performed_call_has_the_effect_of_the_layer_below_and_answers_the_node',
-                      f'r is Ok ==> r->Ok_0.ident == new_child.ident && final(world).inserted(*old(world), {ME}, new_child.ident, match ref_child {{ Some(x) => Some(x.ident), None => None::<usize> }})'),
+                      f'r is Ok ==> r->Ok_0.ident == new_child.ident && ((ref_child is Some && ref_child->Some_0.ident == new_child.ident) || final(world).inserted(*old(world), {ME}, new_child.ident, match ref_child {{ Some(x) => Some(x.ident), None => None::<usize> }}))'),
+                     ('C13:a_node_before_itself_is_refused_or_nothing_changes', f'ref_child is Some && ref_child->Some_0.ident == new_child.ident ==> final(world).unchanged(*old(world))'),
                      ('C13:the_call_is_performed_whenever_nothing_stands_against_it',
                       f'doc_of({ME}) == doc_of(new_child.ident) && convertible(new_child.ident) && !refused_below(*old(world), {ME}, new_child.ident)'
                       f' && (ref_child is Some ==> doc_of({ME}) == doc_of(ref_child->Some_0.ident) && old(world).list({ME}).contains(ref_child->Some_0.ident) && ref_child->Some_0.ident != new_child.ident) ==> r is Ok'),
                      ('C13:and_only_then',
-                      f'r is Ok ==> doc_of({ME}) == doc_of(new_child.ident) && convertible(new_child.ident) && !refused_below(*old(world), {ME}, new_child.ident)'
-                      f' && (ref_child is Some ==> doc_of({ME}) == doc_of(ref_child->Some_0.ident) && old(world).list({ME}).contains(ref_child->Some_0.ident) && ref_child->Some_0.ident != new_child.ident)'),
+                      f'r is Ok ==> doc_of({ME}) == doc_of(new_child.ident) && convertible(new_child.ident)'
+                      f' && (ref_child is Some ==> doc_of({ME}) == doc_of(ref_child->Some_0.ident) && old(world).list({ME}).contains(ref_child->Some_0.ident))'
+                      f' && ((ref_child is Some && ref_child->Some_0.ident == new_child.ident) || !refused_below(*old(world), {ME}, new_child.ident))'),
                      ('C13:not_found_is_answered_only_for_a_reference', f'r is Err && r->Err_0 == {DOM("NotFoundErr")} ==> ref_child is Some')])
         fns[prefix + 'remove_child'] = Fn(
             FD, owner, 'remove_child', props=P, safety_props=P, label=label + '::remove_child', sig_rules=[Rule('R43', r'\(&self,', '(&self, world: &mut World,', 'explicit world parameter'), SIG[1]],
@@ -214,14 +220,14 @@ def build():
         FD, TD, 'replace_child', props=P, safety_props=P, label='dom::NodeMut::replace_child (trait default, as XmlElement has it)', sig_rules=SIG1,
         rules=[Rule('R43', r'self\.insert_before\(new_child, ', 'self.insert_before(world, new_child, ', 'explicit world parameter handed on'),
                Rule('R43', r'self\.remove_child\(', 'self.remove_child(world, ', 'same')],
-        inject=[(r'self\.remove_child\(world, ', f'proof {{ lemma_ins_before_keeps(old(world).list({ME}), new_child.ident, old_child.ident); }}', 'before')],
+        inject=[(r'self\.remove_child\(world, ', f'proof {{ if new_child.ident != old_child.ident {{ lemma_ins_before_keeps(old(world).list({ME}), new_child.ident, old_child.ident); }} }}', 'before')],
         ensures=[('C13:every_error_is_one_of_the_specified_classes_and_changes_nothing',
                   f'r is Err ==> final(world).unchanged(*old(world)) && (r->Err_0 == {DOM("WrongDocumentErr")} || r->Err_0 == {DOM("NotFoundErr")} || r->Err_0 == {DOM("HierarchyRequestErr")} || r->Err_0 == {DOM("NotSupportErr")})'),
                  ('C13:a_node_of_another_document_is_refused', f'(doc_of({ME}) != doc_of(new_child.ident) || doc_of({ME}) != doc_of(old_child.ident)) ==> r is Err && r->Err_0 == {DOM("WrongDocumentErr")}'),
                  ('C13:an_old_child_that_is_not_a_child_is_not_found',
                   f'doc_of({ME}) == doc_of(new_child.ident) && doc_of({ME}) == doc_of(old_child.ident) && convertible(new_child.ident) && !old(world).list({ME}).contains(old_child.ident) ==> r is Err && r->Err_0 == {DOM("NotFoundErr")}'),
                  ('C13:a_performed_call_answers_the_old_child_and_the_new_one_stands_in_its_place',
-                  f'r is Ok ==> r->Ok_0.ident == old_child.ident && final(world).list({ME}) == without_id(ins_before(old(world).list({ME}), new_child.ident, old_child.ident), old_child.ident)'
+                  f'r is Ok && new_child.ident != old_child.ident ==> r->Ok_0.ident == old_child.ident && final(world).list({ME}) == without_id(ins_before(old(world).list({ME}), new_child.ident, old_child.ident), old_child.ident)'
                   f' && (exists|mid: World| mid.inserted(*old(world), {ME}, new_child.ident, Some(old_child.ident)) && final(world).deleted(mid, {ME}, old_child.ident))'),
                  ('C13:the_call_is_performed_whenever_nothing_stands_against_it',
                   f'doc_of({ME}) == doc_of(new_child.ident) && doc_of({ME}) == doc_of(old_child.ident) && convertible(new_child.ident) && !refused_below(*old(world), {ME}, new_child.ident)'
